@@ -77,10 +77,10 @@ def run_ops(args):
             elif op == "toggle":
                 constants.always_return_list = not constants.always_return_list
             elif op == "json":
-                txt = helpers._jsonify(f.attributes)
+                txt = A.to_stored_json(f)
                 if list(json.loads(txt).keys()) != list(f.attributes.keys()):
                     fails.append((k, "json_key_order"))
-                f.attributes = helpers._unjsonify(txt, isattributes=True)
+                f.attributes = A.from_stored_json(txt)
             if constants.always_return_list != s["sw"]:
                 fails.append((k, "harness:switch"))
             got = view_of(f.attributes)
@@ -92,7 +92,7 @@ def run_ops(args):
                 fails.append((k, "stored_values_are_lists"))
                 break
             # JSON identity of the stored form at every step, for any content
-            if A.proj_attrs(helpers._unjsonify(helpers._jsonify(f.attributes), isattributes=True)) != under:
+            if A.proj_attrs(A.from_stored_json(A.to_stored_json(f))) != under:
                 fails.append((k, "json_identity"))
     except Exception as e:  # noqa
         fails.append((len(h), "raised:" + type(e).__name__))
@@ -116,8 +116,8 @@ def merge_on_code(a1, a2, numeric, as_attrs, switch):
         res, raised = None, type(e).__name__
     finally:
         constants.always_return_list = True
-    after1 = dict(x1._d) if as_attrs else x1
-    after2 = dict(x2._d) if as_attrs else x2
+    after1 = dict(A.stored_items(x1)) if as_attrs else x1
+    after2 = dict(A.stored_items(x2)) if as_attrs else x2
     unchanged = after1 == b1 and after2 == b2 and list(after1.keys()) == list(b1.keys())
     return res, raised, unchanged
 
